@@ -123,7 +123,7 @@ def gen(rng, tier, quarantine=()):
         op = call_shape(rng, qual, fnir, "k1")
         op["tape"] = gen_tape(rng, 8)
         ops.append(op)
-    sc = {"prog": "forms", "ops": ops, "activation_inv": "C02.activation"}
+    sc = {"prog": "forms", "ops": ops, "activation_inv": "C02.activation", "exact_failures": True}
     if generated:
         sc.update({"prog": "generated", "program": generated, "prog_name": f"gen{rng.randrange(1 << 40):x}"})
     return sc
